@@ -90,6 +90,41 @@ func genC15(c *Ctx) {
 			c.mark(fmt.Sprintf("mmr(%d,%d)", n, w))
 		}
 	}
+	// the commitment code USES the laws: the number of subtree roots of a blob that occupies n shares is the
+	// number of mountains of MerkleMountainRangeSizes(n, SubTreeWidth(n, t)) - for both share versions (a
+	// version 1 blob's signer takes 20 bytes of the first share, so n is not a function of the data length alone),
+	// at the data lengths next to every share boundary
+	c.guard("GenerateSubtreeRoots", map[string]any{"sweep": "share-boundary data lengths x versions x thresholds"}, func() {
+		nsC := blobNamespaces(r, 1)[0]
+		for _, t := range []int{1, 2, 3, 5, 64} {
+			for n := 1; n <= 132; n++ {
+				for ver := 0; ver <= 1; ver++ {
+					lmax := func(k int) int { return 478 - 20*ver + 482*(k-1) } // most data bytes that fit k shares
+					for _, l := range []int{lmax(n-1) + 1, lmax(n-1) + 20, lmax(n-1) + 21, lmax(n)} {
+						if l < 1 || (t < 64 && n > 40 && l != lmax(n-1)+1) {
+							continue
+						}
+						g := genBlob{ns: nsC, ver: uint8(ver), data: make([]byte, l)}
+						if ver == 1 {
+							g.signer = make([]byte, 20)
+						}
+						bl := g.blob()
+						shs, err := bl.ToShares()
+						if err != nil {
+							continue
+						}
+						roots, err := inclusion.GenerateSubtreeRoots(bl, t)
+						w := inclusion.SubTreeWidth(len(shs), t)
+						sizes, _ := inclusion.MerkleMountainRangeSizes(uint64(len(shs)), uint64(w))
+						c.check(err == nil && len(roots) == len(sizes) && len(shs) >= n-1 && len(shs) <= n+1, "GenerateSubtreeRoots",
+							"number of subtree roots is not the number of mountains of MerkleMountainRangeSizes(n, SubTreeWidth(n, t)) for the blob's share count n",
+							map[string]any{"data_len": l, "version": ver, "threshold": t, "shares": len(shs), "roots": len(roots), "want": len(sizes)})
+						c.count(fmt.Sprintf("subtree_root_count_v%d", ver))
+					}
+				}
+			}
+		}
+	})
 	nmax, tmax := 160, 12
 	if c.tier == "thorough" {
 		nmax, tmax = 1200, 70
@@ -460,6 +495,7 @@ func genC13(c *Ctx) {
 		k := 1 + r.Intn(14)
 		ops := ""
 		cnt := share.NewCompactShareCounter()
+		var zc share.CompactShareCounter // the zero value of the exported type, used without the constructor
 		var surviving []int
 		lastWasAdd := false
 		hasRevert := false
@@ -470,6 +506,7 @@ func genC13(c *Ctx) {
 			if r.Bool(25) {
 				ops += "r"
 				cnt.Revert()
+				zc.Revert()
 				if lastWasAdd {
 					surviving = surviving[:len(surviving)-1]
 				}
@@ -480,6 +517,7 @@ func genC13(c *Ctx) {
 				ops += "a" + s(l)
 				before := cnt.Size()
 				d := cnt.Add(l)
+				zc.Add(l)
 				surviving = append(surviving, l)
 				lastWasAdd = true
 				c.check(cnt.Size()-before == d, "CompactShareCounter.Add", "returned increment differs from the change of Size", map[string]any{"ops": ops})
@@ -501,6 +539,8 @@ func genC13(c *Ctx) {
 			}
 			c.check(css.Count() == cnt.Size() && cnt.Size() == share.CompactSharesNeeded(uint32(total)) && cnt.Remainder() == rem,
 				"CompactShareCounter", "size/remainder differ from a splitter fed the surviving transactions", map[string]any{"ops": ops})
+			c.check(css.Count() == zc.Size() && zc.Remainder() == rem,
+				"CompactShareCounter", "a zero-value counter (not made by the constructor): size/remainder differ from a splitter fed the surviving transactions", map[string]any{"ops": ops})
 		}
 		c.add("counter", ops)
 		if hasRevert || cnt.Size() > 1 {
